@@ -1751,6 +1751,27 @@ DK2 = [
      {"p.py": "def g() -> str:\n    return ''\n"}),
     ("lambda-use", {"p.py": "def g() -> int:\n    return 1\n", "c.py": TYP + "import p\ndef f() -> None:\n    h: Callable[[], int] = lambda: p.g()\n"},
      {"p.py": "def g() -> str:\n    return ''\n"}),
+    # ---- wave 5: re-exports and multiple inheritance (mini-language extension)
+    ("reexport-source-changes-var", {"p1.py": "v: int = 0\n", "p2.py": "v: str = ''\n",
+                                     "q.py": "from p1 import v\n", "c.py": "import q\ndef f() -> int:\n    return q.v\n"},
+     {"q.py": "from p2 import v\n"}),
+    ("second-base-attr-changes", {"p.py": "class A:\n    pass\nclass M:\n    x: int = 0\n", "q.py": "from p import A, M\nclass B(A, M):\n    pass\n",
+                                  "c.py": "from q import B\ndef f(b: B) -> int:\n    return b.x\n"},
+     {"p.py": "class A:\n    pass\nclass M:\n    x: str = ''\n"}),
+    ("class-gains-second-base", {"p.py": "class A:\n    pass\nclass M:\n    x: int = 0\n", "q.py": "from p import A, M\nclass B(A):\n    pass\n",
+                                 "c.py": "from q import B\ndef f(b: B) -> int:\n    return b.x\n"},
+     {"q.py": "from p import A, M\nclass B(A, M):\n    pass\n"}),
+]
+
+# divergences predicted by the mini-language model (an edge the completeness proof needs and the real deps lack), confirmed on the
+# unchanged tree, recorded in notes/C03-findings.json and listed in known_findings.json (part of the default streams)
+DK_PENDING = [
+    ("reexport-source-changes", {"p1.py": "def g() -> int:\n    return 1\n", "p2.py": "def g() -> str:\n    return ''\n",
+                                 "q.py": "from p1 import g\n", "c.py": "from q import g\ndef f() -> int:\n    return g()\n"},
+     {"q.py": "from p2 import g\n"}),
+    ("reexport-becomes-local", {"p1.py": "def g() -> int:\n    return 1\n",
+                                "q.py": "from p1 import g\n", "c.py": "from q import g\ndef f() -> int:\n    return g()\n"},
+     {"q.py": "def g() -> str:\n    return ''\n"}),
 ]
 
 
@@ -1760,7 +1781,7 @@ def dk_scenarios() -> list[tuple[str, dict[str, str], dict[str, Any]]]:
         files = {"q.py": q, "c.py": c}
         files["p.py"] = p0
         out.append((name, files, {"p.py": p1}))
-    return out + DK2
+    return out + DK2 + DK_PENDING
 
 
 def dk_histories(quick: bool) -> list[dict[str, Any]]:
@@ -2209,19 +2230,23 @@ class MiniGen:
         self.mods[m] = d
         earlier = [(mm, c) for mm, dd in self.mods.items() if mm < m for c in dd["classes"]]
         for c in r.sample(CLS, r.randint(1, 2)):
-            base = None
+            bases: list[Any] = []
             cands = earlier + [(m, c2) for c2 in d["classes"] if c2 < c]
             if cands and r.random() < 0.7:
-                base = list(r.choice(cands))
+                bases.append(list(r.choice(cands)))
+                # multiple inheritance: a second base without bases of its own (always a consistent MRO)
+                roots = [list(x) for x in cands if list(x) != bases[0] and not self.mods[x[0]]["classes"][x[1]]["bases"]]
+                if roots and r.random() < 0.4:
+                    bases.append(r.choice(roots))
             attrs = {a: self.ty(m) for a in r.sample(ATT, r.randint(0, 2))}
-            d["classes"][c] = {"base": base, "attrs": attrs, "meths": {}}
+            d["classes"][c] = {"bases": bases, "attrs": attrs, "meths": {}}
         for x in r.sample(VAR, r.randint(0, 2)):
             d["vars"][x] = self.ty(m)
         for mm in [k for k in self.mods if k < m]:
-            names = list(self.mods[mm]["funcs"]) + list(self.mods[mm]["classes"]) + list(self.mods[mm]["vars"])
+            names = list(self.mods[mm]["funcs"]) + list(self.mods[mm]["classes"]) + list(self.mods[mm]["vars"]) + list(self.mods[mm]["from"])
             for x in r.sample(names, min(len(names), r.randint(0, 2))):
                 if x not in d["classes"] and x not in d["vars"]:
-                    d["from"][x] = [mm, x]
+                    d["from"][x] = [mm, x]          # may be a name that mm itself from-imported: a re-export chain
         return d
 
     def add_bodies(self) -> None:
@@ -2248,19 +2273,27 @@ class MiniGen:
 
     def members(self, m: int, c: int) -> dict[int, Any]:
         out: dict[int, Any] = {}
-        seen = 0
-        cur: Any = (m, c)
-        while cur is not None and seen < 10:
-            cd = self.mods.get(cur[0], {"classes": {}})["classes"].get(cur[1])
-            if cd is None:
-                break
+
+        def walk(mm: int, cc: int, depth: int) -> None:       # left to right, depth first (as the model)
+            cd = self.mods.get(mm, {"classes": {}})["classes"].get(cc)
+            if cd is None or depth > 10:
+                return
             for a, t in cd["attrs"].items():
                 out.setdefault(a, ("attr", t))
             for a, fd in cd["meths"].items():
                 out.setdefault(a, ("meth", fd))
-            cur = tuple(cd["base"]) if cd["base"] else None
-            seen += 1
+            for b in cd["bases"]:
+                walk(b[0], b[1], depth + 1)
+        walk(m, c, 0)
         return out
+
+    def resolve_from(self, m: int, x: int) -> tuple[Any, Any]:
+        seen = 0
+        while x in self.mods[m]["from"] and seen < 10:
+            m, x = self.mods[m]["from"][x]
+            seen += 1
+        d = self.mods[m]
+        return (m, x) if (x in d["vars"] or x in d["funcs"] or x in d["classes"]) else (None, None)
 
     def arg_for(self, m: int, params: list[Any], t: Any, depth: int) -> Any:
         r = self.r
@@ -2296,9 +2329,17 @@ class MiniGen:
                 starts.append((self.call_with(m, params, ref, fd["params"], depth), fd["ret"]))
             for c in d["classes"]:
                 starts.append(self.construct(m, params, (mm, c), depth))
-        for x, (mm, x2) in self.mods[m]["from"].items():
-            if x2 in self.mods[mm]["vars"]:
-                starts.append((["from", x], self.mods[mm]["vars"][x2]))
+        for x in self.mods[m]["from"]:
+            dm, dx = self.resolve_from(m, x)
+            if dm and dx in self.mods[dm]["vars"]:
+                starts.append((["from", x], self.mods[dm]["vars"][dx]))
+            elif dm and dx in self.mods[dm]["funcs"]:
+                fd = self.mods[dm]["funcs"][dx]
+                starts.append((self.call_with(m, params, ["from", x], fd["params"], depth), fd["ret"]))
+            elif dm and dx in self.mods[dm]["classes"]:
+                init = self.members(dm, dx).get(1)
+                ps = init[1]["params"] if init and init[0] == "meth" else []
+                starts.append((self.call_with(m, params, ["from", x], ps, depth), ["inst", dm, dx]))
         inst = [sx for sx in starts if sx[1] and sx[1][0] == "inst"]
         e, t = r.choice(inst if inst and r.random() < 0.8 else starts)
         for _ in range(r.randint(0, 2)):
@@ -2350,8 +2391,15 @@ class MiniGen:
                 d["vars"][x] = self.ty(m)
         elif what == "base" and d["classes"]:
             c = r.choice(list(d["classes"]))
-            cands = [(mm, c2) for mm, dd in self.mods.items() if mm < m for c2 in dd["classes"]]
-            d["classes"][c]["base"] = list(r.choice(cands)) if cands and d["classes"][c]["base"] is None else None
+            cands = [[mm, c2] for mm, dd in self.mods.items() if mm < m for c2 in dd["classes"]]
+            cur = d["classes"][c]["bases"]
+            roots = [x for x in cands if x not in cur and not self.mods[x[0]]["classes"][x[1]]["bases"]]
+            if not cur and cands:
+                d["classes"][c]["bases"] = [r.choice(cands)]
+            elif len(cur) == 1 and roots and r.random() < 0.5:
+                d["classes"][c]["bases"] = cur + [r.choice(roots)]            # gain a second base
+            else:
+                d["classes"][c]["bases"] = cur[:-1]                            # lose the last base
         elif what == "del":
             pool = [("funcs", x) for x in d["funcs"]] + [("vars", x) for x in d["vars"]]
             if pool:
@@ -2404,8 +2452,8 @@ class MiniGen:
             for x, t in sorted(d["vars"].items()):
                 o.append(f"{mini_name(x)}: {self.py_ty(t, m)}\n")
             for c, cd in sorted(d["classes"].items()):
-                b = cd["base"]
-                o.append(f"class {mini_name(c)}" + (f"({mini_name(b[1]) if b[0] == m else 'm%d.%s' % (b[0], mini_name(b[1]))})" if b else "") + ":\n")
+                bs = ", ".join(mini_name(b[1]) if b[0] == m else "m%d.%s" % (b[0], mini_name(b[1])) for b in cd["bases"])
+                o.append(f"class {mini_name(c)}" + (f"({bs})" if bs else "") + ":\n")
                 for a, t in sorted(cd["attrs"].items()):
                     o.append(f"    {mini_name(a, True)}: {self.py_ty(t, m)}\n")
                 for a, fd in sorted(cd["meths"].items()):
@@ -2457,7 +2505,7 @@ class MiniGen:
         fs = coq_list([f"({f}, {self.coq_fdef(fd, m)})" for f, fd in sorted(d["funcs"].items())])
         cs = []
         for c, cd in sorted(d["classes"].items()):
-            b = f"(Some ({cd['base'][0]}, {cd['base'][1]}))" if cd["base"] else "None"
+            b = coq_list([f"({x[0]}, {x[1]})" for x in cd["bases"]])
             at = coq_list([f"({a}, {self.coq_ty(t)})" for a, t in sorted(cd["attrs"].items())])
             ms = coq_list([f"({a}, {self.coq_fdef(fd, m)})" for a, fd in sorted(cd["meths"].items())])
             cs.append(f"({c}, mkC {b} {at} {ms})")
@@ -2516,6 +2564,11 @@ def mini_stage(ctx: vlib.Ctx) -> None:
         g = MiniGen(vlib.Rng(ctx.seed, f"mini/{i}"))
         g.add_bodies()
         files_a, prog_a, tg = g.python(), g.coq_prog(), g.targets()
+        ctx.add("mini_classes_with_two_bases", sum(1 for dd in g.mods.values() for cd in dd["classes"].values() if len(cd["bases"]) == 2))
+        ctx.add("mini_classes", sum(len(dd["classes"]) for dd in g.mods.values()))
+        ctx.add("mini_from_imports", sum(len(dd["from"]) for dd in g.mods.values()))
+        ctx.add("mini_reexport_chains", sum(1 for mm, dd in g.mods.items() for x, (m2, x2) in dd["from"].items() if x2 in g.mods[m2]["from"]))
+        ctx.add("mini_vars_typed_by_class_of_other_module", sum(1 for mm, dd in g.mods.items() for t in dd["vars"].values() if t[0] == "inst" and t[1] != mm))
         mods_a = {m: g.coq_module(m) for m in g.mods}
         for _ in range(rng.randint(1, 2)):
             g.mutate()
